@@ -64,10 +64,11 @@ class LazyList:
             return 0
 
     def __eq__(self, other):
-        from vyxal.helpers import simplify
-
         if isinstance(other, list):
-            return self.listify() == simplify(other)
+            # Compare the items themselves. Going through simplify() turned
+            # the other side's rationals into floats: an exact Rational never
+            # equals a float, and distinct rationals can share one float.
+            return self.listify() == other
         elif isinstance(other, LazyList):
             return self.listify() == other.listify()
         else:
